@@ -1,5 +1,6 @@
 import CnlProofs.Elastic
 import CnlProofs.Rounding
+import CnlProofs.Overflow
 import CnlModel.StaticExpr
 import CnlSpec.Static
 /-!
@@ -467,6 +468,342 @@ theorem convert_agrees (c : Cfg) (D : Nat) (E : Int) (x : SNum) (hx : x.InRange)
     | _ => rw [hv] at hz; cases hz
   · exact absurd h (hwf m)
 
+/-! ## shifts -/
+
+section shifts
+open Cnl.Overflow (shl_test_pos shl_test_neg shr_pos_bounds shr_neg_bounds cShr_ev cShl_ev mul_pow_ge mul_pow_le)
+
+theorem rep_facts {D : Nat} {rep : IntTy} (hR : repTy D narrowest = some rep) :
+    rep.signed = true ∧ D ≤ rep.digits ∧ 1 ≤ rep.bits ∧ rep.digits < rep.bits := by
+  have ⟨hs, hd, hb⟩ := setDigits_spec hR
+  have hs' : rep.signed = true := hs
+  have hb1 : 1 ≤ rep.bits := by omega
+  exact ⟨hs', Nat.le_trans (Nat.le_max_right _ _) hd, hb1, digits_lt_bits hs' hb1⟩
+
+theorem fits_shr {D : Nat} {v : Int} (hv : Fits D true v) (j : Nat) : Fits D true (v / 2^j) := by
+  have hp := two_pow_pos j
+  have hD := two_pow_pos D
+  have h := (fits_iff.mp hv).1
+  rw [fits_iff]
+  refine ⟨?_, fun h => by cases h⟩
+  by_cases h0 : 0 ≤ v
+  · have ⟨b1, b2⟩ := shr_pos_bounds hp h0; omega
+  · have ⟨b1, b2⟩ := shr_neg_bounds hp (show v < 0 by omega); omega
+
+/-- the run-time `>>` of the elastic layer is the floor quotient (counts up to the digit count) -/
+theorem elShift_shr_spec {D : Nat} {v : Int} (hv : Fits D true v) {j : Nat} (hj : j ≤ D) :
+    elShift .shr D v (j : Int) = .ok (v / 2^j) ∨ ∃ m, elShift .shr D v (j : Int) = .ill m := by
+  cases hR : repTy D narrowest with
+  | none => right; exact ⟨"digits exceed the widest integer", by simp only [elShift, hR]⟩
+  | some rep =>
+    left
+    have ⟨hs, hD, hb1, hlt⟩ := rep_facts hR
+    have hpb := promote_bits_le rep
+    have hq : rep.InRange (v / 2^j) :=
+      inRange_of_fits hD (fits_shr hv j) (fun h => by rw [hs] at h; cases h)
+    simp only [elShift, hR, cShr_ev (B := i32) (show j < (promote rep).bits by omega), IntTy.wrap_id hb1 hq]
+
+/-- the run-time `<<` of the elastic layer is exact when the product fits the digits -/
+theorem elShift_shl_spec {D : Nat} {v : Int} {j : Nat} (hj : j ≤ D) (hf : Fits D true (v * 2^j)) :
+    elShift .shl D v (j : Int) = .ok (v * 2^j) ∨ ∃ m, elShift .shl D v (j : Int) = .ill m := by
+  cases hR : repTy D narrowest with
+  | none => right; exact ⟨"digits exceed the widest integer", by simp only [elShift, hR]⟩
+  | some rep =>
+    left
+    have ⟨hs, hD, hb1, hlt⟩ := rep_facts hR
+    have hpb := promote_bits_le rep
+    have hq : rep.InRange (v * 2^j) := inRange_of_fits hD hf (fun h => by rw [hs] at h; cases h)
+    simp only [elShift, hR, cShl_ev (B := i32) (show j < (promote rep).bits by omega),
+      IntTy.wrap_id (promote_bits_ge hb1) (promote_inRange hb1 hq), IntTy.wrap_id hb1 hq]
+
+theorem elNeg_spec {D : Nat} {v : Int} (hv : Fits D true v) :
+    elNeg D v = .ok (-v) ∨ ∃ m, elNeg D v = .ill m := by
+  cases hR : repTy D narrowest with
+  | none =>
+    right
+    have : Elastic.neg ⟨D, narrowest, v⟩ = .ill "digits exceed the widest integer" := by
+      have hR' : repTy D ⟨narrowest.bits, true⟩ = none := hR
+      simp only [Elastic.neg, hR']
+    exact ⟨"digits exceed the widest integer", by simp only [elNeg, this]⟩
+  | some rep =>
+    left
+    have h := (neg_core ⟨D, narrowest, v⟩ hv (rep := rep) hR).1
+    simp only [elNeg, h]
+
+theorem natCast_sub_eq {a b : Nat} (h : b ≤ a) : ((a : Int) - (b : Int)) = ((a - b : Nat) : Int) := by omega
+
+theorem two_pow_split {a b : Nat} (h : b ≤ a) : (2:Int)^a = 2^(a - b) * 2^b := by
+  rw [← two_pow_add]; congr 1; omega
+
+theorem bne_zero_eq (q : Int) (P : Prop) [Decidable P] (h : q ≠ 0 ↔ P) : (q != 0) = decide P := by
+  by_cases hq : q = 0
+  · have : ¬P := fun hp => (h.mpr hp) hq
+    simp [hq, this]
+  · have : P := h.mp hq
+    simp [hq, this]
+
+theorem bne_negone_eq (q : Int) (P : Prop) [Decidable P] (h : q ≠ -1 ↔ P) : (q != -1) = decide P := by
+  by_cases hq : q = -1
+  · have : ¬P := fun hp => (h.mpr hp) hq
+    simp [hq, this]
+  · have : P := h.mp hq
+    simp [hq, this]
+
+/-- the positive test fires exactly when `x · 2^j` exceeds `2^pd − 1` (`pd` the result's digits) -/
+theorem isOverflowShl_pos_spec {pd D : Nat} {x : Int} (hx : Fits D true x) {j : Nat} (h1 : D ≤ pd) (h2 : pd ≤ D + j) :
+    isOverflowShl true pd D x (j : Int) = .ok (decide (x * 2^j > 2^pd - 1)) ∨
+      ∃ m, isOverflowShl true pd D x (j : Int) = .ill m := by
+  have hpj := two_pow_pos j
+  have hpp := two_pow_pos pd
+  have hb := (fits_iff.mp hx).1
+  have hle := two_pow_le h1
+  by_cases hx0 : x > 0
+  · by_cases hj0 : (j : Int) > 0
+    · by_cases hjp : (j : Int) < pd
+      · have hjp' : j ≤ pd := by omega
+        rcases elShift_shr_spec hx (show pd - j ≤ D by omega) with h | ⟨m, h⟩
+        · left
+          have ht := shl_test_pos (l := x) (two_pow_pos (pd - j)) hpj hx0
+          rw [← two_pow_split hjp'] at ht
+          simp only [isOverflowShl, hx0, hj0, hjp, ite_true, natCast_sub_eq hjp', h, Res.bind_ok, Res.pure_eq,
+            bne_zero_eq _ _ ht]
+        · right; exact ⟨m, by simp only [isOverflowShl, hx0, hj0, hjp, ite_true, natCast_sub_eq hjp', h, bind_ill]⟩
+      · left
+        have := two_pow_le (show pd ≤ j by omega)
+        have := mul_pow_ge hpj (show 1 ≤ x by omega)
+        have hgt : x * 2^j > 2^pd - 1 := by omega
+        simp only [isOverflowShl, hx0, hj0, hjp, ite_true, ite_false, hgt, decide_true]
+    · left
+      have hj' : j = 0 := by omega
+      subst hj'
+      have hng : ¬ x * 2^0 > 2^pd - 1 := by simp; omega
+      simp only [isOverflowShl, hx0, hj0, ite_true, ite_false, hng, decide_false]
+  · left
+    have := (Cnl.Overflow.mul_sign_facts x (2^j)).2.2.2 (by omega) (by omega)
+    have hng : ¬ x * 2^j > 2^pd - 1 := by omega
+    simp only [isOverflowShl, hx0, ite_true, ite_false, hng, decide_false]
+
+/-- the (repaired) negative test fires exactly when `x · 2^j` is below `−(2^pd − 1)` -/
+theorem isOverflowShl_neg_spec {pd D : Nat} {x : Int} (hx : Fits D true x) {j : Nat} (h1 : D ≤ pd) (h2 : pd ≤ D + j) :
+    isOverflowShl false pd D x (j : Int) = .ok (decide (x * 2^j < -(2^pd - 1 : Int))) ∨
+      ∃ m, isOverflowShl false pd D x (j : Int) = .ill m := by
+  have hpj := two_pow_pos j
+  have hpp := two_pow_pos pd
+  have hb := (fits_iff.mp hx).1
+  have hle := two_pow_le h1
+  have hf : (false = true) = False := by simp
+  by_cases hx0 : x < 0
+  · by_cases hj0 : (j : Int) > 0
+    · by_cases hjp : (j : Int) < pd
+      · have hjp' : j ≤ pd := by omega
+        have hnx : Fits D true (-x) := by rw [fits_iff]; exact ⟨by omega, fun h => by cases h⟩
+        rcases elNeg_spec hx with hn | ⟨m, hn⟩
+        · rcases elShift_shr_spec hnx (show pd - j ≤ D by omega) with h | ⟨m, h⟩
+          · left
+            have ht := shl_test_pos (l := -x) (two_pow_pos (pd - j)) hpj (by omega)
+            rw [← two_pow_split hjp', Int.neg_mul] at ht
+            have ht' : -x / 2^(pd - j) ≠ 0 ↔ x * 2^j < -(2^pd - 1 : Int) := by rw [ht]; omega
+            simp only [isOverflowShl, hf, ite_false, hx0, hj0, hjp, ite_true, natCast_sub_eq hjp', hn, h, Res.bind_ok,
+              Res.pure_eq, bne_zero_eq _ _ ht']
+          · right
+            exact ⟨m, by simp only [isOverflowShl, hf, ite_false, hx0, hj0, hjp, ite_true, natCast_sub_eq hjp', hn, h,
+              Res.bind_ok, bind_ill]⟩
+        · right
+          exact ⟨m, by simp only [isOverflowShl, hf, ite_false, hx0, hj0, hjp, ite_true, hn, bind_ill]⟩
+      · left
+        have := two_pow_le (show pd ≤ j by omega)
+        have := mul_pow_le hpj (show x ≤ -1 by omega)
+        have hlt : x * 2^j < -(2^pd - 1 : Int) := by omega
+        simp only [isOverflowShl, hf, hx0, hj0, hjp, ite_true, ite_false, hlt, decide_true]
+    · left
+      have hj' : j = 0 := by omega
+      subst hj'
+      have hng : ¬ x * 2^0 < -(2^pd - 1 : Int) := by simp; omega
+      simp only [isOverflowShl, hf, hx0, hj0, ite_true, ite_false, hng, decide_false]
+  · left
+    have := (Cnl.Overflow.mul_sign_facts x (2^j)).1 (by omega) (by omega)
+    have hng : ¬ x * 2^j < -(2^pd - 1 : Int) := by omega
+    simp only [isOverflowShl, hf, hx0, ite_true, ite_false, hng, decide_false]
+
+/-- the **as-found** negative test, for counts below the digit count, fires exactly when `x · 2^j` is
+below `−2^pd`: it lets `−2^pd`, one below the symmetric range, through -/
+theorem isOverflowShlNegOrig_spec {pd D : Nat} {x : Int} (hx : Fits D true x) {j : Nat} (h1 : D ≤ pd)
+    (h2 : pd ≤ D + j) (hjp : (j : Int) < pd) :
+    isOverflowShlNegOrig pd D x (j : Int) = .ok (decide (x * 2^j < -(2^pd : Int))) ∨
+      ∃ m, isOverflowShlNegOrig pd D x (j : Int) = .ill m := by
+  have hpj := two_pow_pos j
+  have hpp := two_pow_pos pd
+  have hb := (fits_iff.mp hx).1
+  by_cases hx0 : x < 0
+  · by_cases hj0 : (j : Int) > 0
+    · have hjp' : j ≤ pd := by omega
+      rcases elShift_shr_spec hx (show pd - j ≤ D by omega) with h | ⟨m, h⟩
+      · left
+        have ht := shl_test_neg (l := x) (two_pow_pos (pd - j)) hpj hx0
+        rw [← two_pow_split hjp'] at ht
+        simp only [isOverflowShlNegOrig, hx0, hj0, hjp, ite_true, natCast_sub_eq hjp', h, Res.bind_ok, Res.pure_eq,
+          bne_negone_eq _ _ ht]
+      · right; exact ⟨m, by simp only [isOverflowShlNegOrig, hx0, hj0, hjp, ite_true, natCast_sub_eq hjp', h, bind_ill]⟩
+    · left
+      have hj' : j = 0 := by omega
+      subst hj'
+      have hD : (2:Int)^D ≤ 2^pd := two_pow_le h1
+      have hng : ¬ x * 2^0 < -(2^pd : Int) := by simp; omega
+      simp only [isOverflowShlNegOrig, hx0, hj0, ite_true, ite_false, hng, decide_false]
+  · left
+    have := (Cnl.Overflow.mul_sign_facts x (2^j)).1 (by omega) (by omega)
+    have hng : ¬ x * 2^j < -(2^pd : Int) := by omega
+    simp only [isOverflowShlNegOrig, hx0, ite_false, hng, decide_false]
+
+theorem react_eq_narrow_pos (c : Cfg) (D : Nat) (E : Int) {w : Int} (ht : c.tag ≠ .nat) (h : w > 2^D - 1) :
+    mkS D E (reactDigits c.tag true D) = (narrowDigits c D w >>= fun v => .ok ⟨D, E, v⟩) := by
+  simp only [narrowDigits, h, ite_true, mkS, reactDigits]
+  cases hc : c.tag <;> first | rfl | exact absurd hc ht
+
+theorem react_eq_narrow_neg (c : Cfg) (D : Nat) (E : Int) {w : Int} (ht : c.tag ≠ .nat) (h1 : ¬ w > 2^D - 1)
+    (h2 : w < -(2^D - 1 : Int)) :
+    mkS D E (reactDigits c.tag false D) = (narrowDigits c D w >>= fun v => .ok ⟨D, E, v⟩) := by
+  simp only [narrowDigits, h1, h2, ite_true, ite_false, mkS, reactDigits]
+  cases hc : c.tag <;> first | rfl | exact absurd hc ht
+
+theorem zero_of_fits_of_big {D j : Nat} {v : Int} (hj : D + 1 ≤ j) (hf : Fits D true (v * 2^j)) : v = 0 := by
+  have hb := (fits_iff.mp hf).1
+  have hpj := two_pow_pos j
+  have h2 := two_pow_le hj
+  rw [two_pow_succ] at h2
+  have hD := two_pow_pos D
+  refine Decidable.byContradiction fun hne => ?_
+  by_cases hpos : 1 ≤ v
+  · have := mul_pow_ge hpj hpos; omega
+  · have := mul_pow_le hpj (show v ≤ -1 by omega); omega
+
+/-- **`x << n`, run-time count `n ≥ 0`**: the overflow-checked narrowing of the exact product
+`x · 2^n` into the operand's own digits (flagged iff outside `±(2^D − 1)`, then the tag's
+reaction), in the operand's exponent — or an ill-formed instantiation / the native tag -/
+theorem shiftRT_shl_core (c : Cfg) (x : SNum) (j : Nat) (hx : x.InRange) :
+    shiftRT c .shl x (j : Int) =
+        (narrowDigits c x.digits (x.value * 2^j) >>= fun v => .ok ⟨x.digits, x.exp, v⟩) ∨
+      ∃ m, shiftRT c .shl x (j : Int) = .ill m := by
+  by_cases ht : c.tag = .nat
+  · right; exact ⟨"native tag: not modelled", by simp only [shiftRT, checkedShl, ht, ite_true]⟩
+  · have hxf := fits_of_inRange hx
+    rcases isOverflowShl_pos_spec hxf (Nat.le_refl _) (Nat.le_add_right _ j) with hp | ⟨m, hp⟩
+    · by_cases hgt : x.value * 2^j > 2^x.digits - 1
+      · left
+        simp only [shiftRT, checkedShl, ht, ite_false, hp, Res.bind_ok, hgt, decide_true, ite_true]
+        exact react_eq_narrow_pos c _ _ ht hgt
+      · rcases isOverflowShl_neg_spec hxf (Nat.le_refl _) (Nat.le_add_right _ j) with hn | ⟨m, hn⟩
+        · by_cases hlt : x.value * 2^j < -(2^x.digits - 1 : Int)
+          · left
+            simp only [shiftRT, checkedShl, ht, ite_false, hp, hn, Res.bind_ok, hgt, hlt, decide_true, decide_false,
+              ite_true, Bool.false_eq_true]
+            exact react_eq_narrow_neg c _ _ ht hgt hlt
+          · have hfit : Fits x.digits true (x.value * 2^j) := by
+              rw [fits_iff]; exact ⟨by omega, fun h => by cases h⟩
+            rw [narrowDigits_fits c x.digits (v := x.value * 2^j) ⟨by omega, by omega⟩]
+            by_cases hbig : (j : Int) ≥ ((max (x.digits + 1) (x.digits + 1) : Nat) : Int)
+            · left
+              rw [Nat.max_self] at hbig
+              have hx0 : x.value = 0 := zero_of_fits_of_big (by omega) hfit
+              have hnl : ¬ x.value < 0 := by omega
+              simp only [shiftRT, checkedShl, ht, ite_false, hp, hn, Res.bind_ok, hgt, hlt, decide_false,
+                Bool.false_eq_true, Nat.max_self, hbig, ite_true, hnl]
+              rw [hx0, Int.zero_mul]
+            · rw [Nat.max_self] at hbig
+              rcases elShift_shl_spec (show j ≤ x.digits by omega) hfit with h | ⟨m, h⟩
+              · left
+                simp only [shiftRT, checkedShl, ht, ite_false, hp, hn, Res.bind_ok, hgt, hlt, decide_false,
+                  Bool.false_eq_true, Nat.max_self, hbig, h, mkS, Res.map]
+              · right
+                exact ⟨m, by simp only [shiftRT, checkedShl, ht, ite_false, hp, hn, Res.bind_ok, hgt, hlt, decide_false,
+                  Bool.false_eq_true, Nat.max_self, hbig, h, mkS, Res.map, bind_ill]⟩
+        · right
+          exact ⟨m, by simp only [shiftRT, checkedShl, ht, ite_false, hp, hn, Res.bind_ok, hgt, decide_false,
+            Bool.false_eq_true, bind_ill]⟩
+    · right; exact ⟨m, by simp only [shiftRT, checkedShl, ht, ite_false, hp, bind_ill]⟩
+
+theorem ediv_two_pow_of_small {D j : Nat} {v : Int} (hv : Fits D true v) (hj : D ≤ j) :
+    v / 2^j = if v < 0 then -1 else 0 := by
+  have hb := (fits_iff.mp hv).1
+  have hpj := two_pow_pos j
+  have h2 := two_pow_le hj
+  by_cases h0 : v < 0
+  · simp only [h0, ite_true]
+    have h1 : v / 2^j < 0 := Int.ediv_neg_of_neg_of_pos h0 hpj
+    have h3 : -1 ≤ v / 2^j := Int.le_ediv_of_mul_le hpj (by omega)
+    omega
+  · simp only [h0, ite_false]
+    exact Int.ediv_eq_zero_of_lt (by omega) (by omega)
+
+/-- **`x >> n`, run-time count `n ≥ 0`**: `⌊x / 2^n⌋` in the operand's digits and exponent; no signal -/
+theorem shiftRT_shr_core (c : Cfg) (x : SNum) (j : Nat) (hx : x.InRange) :
+    shiftRT c .shr x (j : Int) = .ok ⟨x.digits, x.exp, x.value / 2^j⟩ ∨ ∃ m, shiftRT c .shr x (j : Int) = .ill m := by
+  by_cases ht : c.tag = .nat
+  · right; exact ⟨"native tag: not modelled", by simp only [shiftRT, ht, ite_true]⟩
+  · have hxf := fits_of_inRange hx
+    by_cases hbig : (j : Int) ≥ ((x.digits + 1 : Nat) : Int)
+    · left
+      simp only [shiftRT, ht, ite_false, hbig, ite_true, ediv_two_pow_of_small hxf (show x.digits ≤ j by omega)]
+    · rcases elShift_shr_spec hxf (show j ≤ x.digits by omega) with h | ⟨m, h⟩
+      · left; simp only [shiftRT, ht, ite_false, hbig, h, mkS, Res.map, Res.bind_ok]
+      · right; exact ⟨m, by simp only [shiftRT, ht, ite_false, hbig, h, mkS, Res.map, bind_ill]⟩
+
+theorem shr_inRange {x : SNum} (hx : x.InRange) (j : Nat) : (⟨x.digits, x.exp, x.value / 2^j⟩ : SNum).InRange :=
+  fits_shr (fits_of_inRange hx) j
+
+/-- **`x << constant<k>` on a static_integer**: exact, `k` more digits; neither overflow test fires -/
+theorem shiftConstInt_shl_core (c : Cfg) (x : SNum) (k : Nat) (hx : x.InRange) :
+    shiftConstInt c .shl x k = .ok ⟨x.digits + k, x.exp, x.value * 2^k⟩ ∨ ∃ m, shiftConstInt c .shl x k = .ill m := by
+  by_cases ht : c.tag = .nat
+  · right; exact ⟨"native tag: not modelled", by simp only [shiftConstInt, checkedShl, ht, ite_true]⟩
+  · have hxf := fits_of_inRange hx
+    have hfit := (fits_iff.mp (shl_bound (k := k) hxf)).1
+    have hgt : ¬ x.value * 2^k > 2^(x.digits + k) - 1 := by omega
+    have hlt : ¬ x.value * 2^k < -(2^(x.digits + k) - 1 : Int) := by omega
+    have hbig : ¬ (k : Int) ≥ ((max (x.digits + k + 1) (x.digits + 1) : Nat) : Int) := by
+      have := Nat.le_max_left (x.digits + k + 1) (x.digits + 1); omega
+    rcases isOverflowShl_pos_spec hxf (Nat.le_add_right _ k) (Nat.le_refl _) with hp | ⟨m, hp⟩
+    · rcases isOverflowShl_neg_spec hxf (Nat.le_add_right _ k) (Nat.le_refl _) with hn | ⟨m, hn⟩
+      · by_cases hwf : ∀ m, shlConst (toE x) k ≠ .ill m
+        · left
+          obtain ⟨n, h⟩ := shl_toE x k hx hwf
+          simp only [shiftConstInt, checkedShl, ht, ite_false, hp, hn, Res.bind_ok, hgt, hlt, decide_false,
+            Bool.false_eq_true, hbig, h]
+        · right
+          have ⟨m, hm⟩ : ∃ m, shlConst (toE x) k = .ill m := Classical.not_forall_not.mp hwf
+          exact ⟨"digits exceed the widest integer", by
+            simp only [shiftConstInt, checkedShl, ht, ite_false, hp, hn, Res.bind_ok, hgt, hlt, decide_false,
+              Bool.false_eq_true, hbig, hm]⟩
+      · right
+        exact ⟨m, by simp only [shiftConstInt, checkedShl, ht, ite_false, hp, hn, Res.bind_ok, hgt, decide_false,
+          Bool.false_eq_true, bind_ill]⟩
+    · right; exact ⟨m, by simp only [shiftConstInt, checkedShl, ht, ite_false, hp, bind_ill]⟩
+
+/-- **`x >> constant<k>` on a static_integer** (`k <` digits): `⌊x / 2^k⌋` in `digits − k` digits -/
+theorem shiftConstInt_shr_core (c : Cfg) (x : SNum) (k : Nat) (hx : x.InRange) (hk : k < x.digits) :
+    shiftConstInt c .shr x k = .ok ⟨x.digits - k, x.exp, x.value / 2^k⟩ ∨ ∃ m, shiftConstInt c .shr x k = .ill m := by
+  by_cases ht : c.tag = .nat
+  · right; exact ⟨"native tag: not modelled", by simp only [shiftConstInt, ht, ite_true]⟩
+  · have hk' : ¬ k > x.digits := by omega
+    by_cases hwf : ∀ m, shrConst (toE x) k ≠ .ill m
+    · left
+      obtain ⟨n, h, _⟩ := shrConst_wf (toE x) k hx hk hwf
+      simp only [shiftConstInt, ht, ite_false, hk', h]
+      rfl
+    · right
+      have ⟨m, hm⟩ : ∃ m, shrConst (toE x) k = .ill m := Classical.not_forall_not.mp hwf
+      exact ⟨"digits exceed the widest integer", by simp only [shiftConstInt, ht, ite_false, hk', hm]⟩
+
+/-- outside the open class the constant right shift stays within the digits it declares -/
+theorem shrConst_inRange {x : SNum} (hx : x.InRange) {k : Nat} (hk : k < x.digits) (hc : ¬ ShrBelowRange k x) :
+    (⟨x.digits - k, x.exp, x.value / 2^k⟩ : SNum).InRange := by
+  have ⟨b1, b2, _⟩ := shr_bound (fits_of_inRange hx) (Nat.le_of_lt hk)
+  unfold ShrBelowRange at hc
+  show -(2^(x.digits - k) - 1 : Int) ≤ x.value / 2^k ∧ x.value / 2^k ≤ 2^(x.digits - k) - 1
+  exact ⟨by omega, b2⟩
+
+end shifts
+
 /-! ## histories -/
 
 theorem bind_of_not_ok {α : Type} (r : Res α) (h : ∀ x, r ≠ .ok x) (f : α → Res α) : (r >>= f) = r := by
@@ -552,6 +889,50 @@ theorem neg_agrees (c : Cfg) (x : SNum) (hx : x.InRange) (hwf : ∀ m, Static.ne
   · rw [h]; exact ⟨⟨rfl, rfl⟩, fun z hz => by cases hz; exact hr⟩
   · exact absurd h (hwf m)
 
+/-! ### the shift nodes agree with the ideal evaluation -/
+
+theorem shl_agrees (c : Cfg) (x : SNum) (k : Nat) (hx : x.InRange) (hwf : ∀ m, shiftRT c .shl x (k : Int) ≠ .ill m) :
+    Agrees c.tag (shiftRT c .shl x (k : Int)) (idealShl c.tag x.digits k (.val x.exp x.value)) ∧
+      ∀ z, shiftRT c .shl x (k : Int) = .ok z → z.InRange := by
+  rcases shiftRT_shl_core c x k hx with h | ⟨m, h⟩
+  · have hn : ∀ m, narrowDigits c x.digits (x.value * 2^k) ≠ .ill m := by
+      intro m hm; rw [hm] at h; exact hwf m h
+    rw [h]
+    refine ⟨narrowDigits_agrees c x.digits x.exp _ hn, fun z hz => ?_⟩
+    cases hv : narrowDigits c x.digits (x.value * 2^k) with
+    | ok w =>
+      rw [hv] at hz; simp only [Res.bind_ok] at hz; cases hz
+      exact narrowDigits_inRange c x.digits _ w hv
+    | _ => rw [hv] at hz; cases hz
+  · exact absurd h (hwf m)
+
+theorem shr_agrees (c : Cfg) (x : SNum) (k : Nat) (hx : x.InRange) (hwf : ∀ m, shiftRT c .shr x (k : Int) ≠ .ill m) :
+    Agrees c.tag (shiftRT c .shr x (k : Int)) (idealShr k (.val x.exp x.value)) ∧
+      ∀ z, shiftRT c .shr x (k : Int) = .ok z → z.InRange := by
+  rcases shiftRT_shr_core c x k hx with h | ⟨m, h⟩
+  · rw [h]; exact ⟨⟨rfl, rfl⟩, fun z hz => by cases hz; exact shr_inRange hx k⟩
+  · exact absurd h (hwf m)
+
+theorem shlN_agrees (c : Cfg) (x : SNum) (k : Int) (hx : x.InRange) :
+    Agrees c.tag (shiftConstNum .shl x k) (idealMoveExp k (.val x.exp x.value)) ∧
+      ∀ z, shiftConstNum .shl x k = .ok z → z.InRange :=
+  ⟨⟨rfl, rfl⟩, fun z hz => by cases hz; exact hx⟩
+
+theorem shlI_agrees (c : Cfg) (x : SNum) (k : Nat) (hx : x.InRange) (hwf : ∀ m, shiftConstInt c .shl x k ≠ .ill m) :
+    Agrees c.tag (shiftConstInt c .shl x k) (idealShlWiden k (.val x.exp x.value)) ∧
+      ∀ z, shiftConstInt c .shl x k = .ok z → z.InRange := by
+  rcases shiftConstInt_shl_core c x k hx with h | ⟨m, h⟩
+  · rw [h]; exact ⟨⟨rfl, rfl⟩, fun z hz => by cases hz; exact shl_bound (k := k) (fits_of_inRange hx)⟩
+  · exact absurd h (hwf m)
+
+theorem shrI_agrees (c : Cfg) (x : SNum) (k : Nat) (hx : x.InRange) (hk : k < x.digits) (hc : ¬ ShrBelowRange k x)
+    (hwf : ∀ m, shiftConstInt c .shr x k ≠ .ill m) :
+    Agrees c.tag (shiftConstInt c .shr x k) (idealShr k (.val x.exp x.value)) ∧
+      ∀ z, shiftConstInt c .shr x k = .ok z → z.InRange := by
+  rcases shiftConstInt_shr_core c x k hx hk with h | ⟨m, h⟩
+  · rw [h]; exact ⟨⟨rfl, rfl⟩, fun z hz => by cases hz; exact shrConst_inRange hx hk hc⟩
+  · exact absurd h (hwf m)
+
 /-- **histories**: under the side conditions, the model's evaluation agrees with the ideal one, and
 a returned value is in range of its digits -/
 theorem eval_agrees (c : Cfg) (e : SExpr) (hs : SideOK c e) (hwf : ∀ m, evalModel c e ≠ .ill m) :
@@ -587,6 +968,39 @@ theorem eval_agrees (c : Cfg) (e : SExpr) (hs : SideOK c e) (hwf : ∀ m, evalMo
     have h := hs.2
     rw [hxe] at h
     exact h
+  | shl D k a iha =>
+    have hwa : ∀ m, evalModel c a ≠ .ill m := by
+      intro m hm; apply hwf m; simp only [evalModel, hm, bind_ill]
+    refine un_node c (fun x => shiftRT c .shl x (k : Int)) (idealShl c.tag D k) (fun _ => rfl) _ _ (iha hs.1 hwa)
+      (fun x hxe hx hw => ?_) hwf
+    have h := hs.2
+    rw [hxe] at h
+    have hD : x.digits = D := h
+    rw [← hD]
+    exact shl_agrees c x k hx hw
+  | shr k a iha =>
+    have hwa : ∀ m, evalModel c a ≠ .ill m := by
+      intro m hm; apply hwf m; simp only [evalModel, hm, bind_ill]
+    exact un_node c (fun x => shiftRT c .shr x (k : Int)) (idealShr k) (fun _ => rfl) _ _ (iha hs hwa)
+      (fun x _ hx hw => shr_agrees c x k hx hw) hwf
+  | shlN k a iha =>
+    have hwa : ∀ m, evalModel c a ≠ .ill m := by
+      intro m hm; apply hwf m; simp only [evalModel, hm, bind_ill]
+    exact un_node c (fun x => shiftConstNum .shl x k) (idealMoveExp k) (fun _ => rfl) _ _ (iha hs hwa)
+      (fun x _ hx _ => shlN_agrees c x k hx) hwf
+  | shlI k a iha =>
+    have hwa : ∀ m, evalModel c a ≠ .ill m := by
+      intro m hm; apply hwf m; simp only [evalModel, hm, bind_ill]
+    exact un_node c (fun x => shiftConstInt c .shl x k) (idealShlWiden k) (fun _ => rfl) _ _ (iha hs hwa)
+      (fun x _ hx hw => shlI_agrees c x k hx hw) hwf
+  | shrI k a iha =>
+    have hwa : ∀ m, evalModel c a ≠ .ill m := by
+      intro m hm; apply hwf m; simp only [evalModel, hm, bind_ill]
+    refine un_node c (fun x => shiftConstInt c .shr x k) (idealShr k) (fun _ => rfl) _ _ (iha hs.1 hwa)
+      (fun x hxe hx hw => ?_) hwf
+    have h := hs.2
+    rw [hxe] at h
+    exact shrI_agrees c x k hx h.1 h.2 hw
 
 /-! ## comparison: the alignment exponent does not matter -/
 
